@@ -92,7 +92,8 @@ def main(argv=None):
                 return 3
             for i in range(len(c.cases)):
                 tasks.append((t, i, {'seed': seed, 'n_random': 300 if tier == 'quick' else 3000,
-                                     'only': c.only.get(prop)}))
+                                     'only': c.only.get(prop), 'prop': prop,
+                                     'known': [f.get('obligation', '') for f in findings if f.get('property') == prop]}))
     lem = [(n, p, f) for (n, p, f) in lemmas if prop in p and a.only in n]
     standins = [(n, p, f) for (n, p, f) in api.STANDINS if prop in p and a.only in n]
 
@@ -146,6 +147,8 @@ def main(argv=None):
         elif r.get('unconfirmed'):
             for f in r['unconfirmed']:
                 undecided.append((base + '/' + f[0], f[1], f[2], f[3], r))
+        if r['status'] == 'unsupported' and not r.get('violation'):
+            undecided.append((base + '/in-subset', 'unknown', 'out of the verified subset: ' + r['detail'], '', r))
     for lr_ in lemma_results:
         solver_s += lr_.get('solver_s', 0.0)
         if lr_.get('crash'):
